@@ -381,6 +381,60 @@ func Run(ctx *common.Ctx) int {
 			atomic.AddInt64(&lcEvals, int64(k))
 		})
 	}
+	// near-identical blocks inside one sequence (a per-call cache or a comparison keyed by part of a block would
+	// confuse them): a base block and a copy differing in one bit near the end / start / middle, among 100 fillers
+	// (enough blocks for a moderate P: with two or three blocks both the right and a wrong classification give P < 1e-8)
+	{
+		type nd struct {
+			m, base, flip int
+		}
+		var nds []nd
+		for _, m := range []int{67, 100, 500, 1000} {
+			for base := 0; base < 5; base++ {
+				for _, flip := range []int{m - 1, m - 2, m - 3, m - 4, m - 5, m - 6, m - 7, m - 8, 0, m / 2} {
+					if quick && m == 1000 && flip < m-4 && flip != 0 {
+						continue
+					}
+					nds = append(nds, nd{m, base, flip})
+				}
+			}
+		}
+		baseNames := []string{"all zeros", "all ones", "filler", "alternating", "unit impulse at 0"}
+		var ndEvals int64
+		common.ParFor(len(nds), func(i int) {
+			c := nds[i]
+			m := c.m
+			B := make([]bool, m)
+			switch c.base {
+			case 1:
+				for t := range B {
+					B[t] = true
+				}
+			case 2:
+				B = enum.Filler(m, uint64(m)+77)
+			case 3:
+				for t := range B {
+					B[t] = t%2 == 1
+				}
+			case 4:
+				B[0] = true
+			}
+			V := append([]bool{}, B...)
+			V[c.flip] = !V[c.flip]
+			var seq []bool
+			seq = append(seq, enum.Filler(50*m, uint64(m)+uint64(c.base))...)
+			seq = append(seq, B...)
+			seq = append(seq, enum.Filler(10*m, uint64(m)+uint64(c.flip)+5)...)
+			seq = append(seq, V...)
+			seq = append(seq, B...)
+			seq = append(seq, enum.Filler(38*m+m/3, uint64(m)+uint64(c.flip)+6)...)
+			d := e2.New(cmp, []calls.Call{lcCall(m)})
+			atomic.AddInt64(&ndEvals, int64(d.One(seq, func() interface{} {
+				return map[string]interface{}{"m": m, "blocks": fmt.Sprintf("50 filler blocks, base block (%s), 10 fillers, the base with bit %d flipped, the base again, 38 fillers + %d tail bits", baseNames[c.base], c.flip, m/3)}
+			})))
+		})
+		cmp.Count("linear complexity m=67,100,500,1000: a base block, a copy with one bit flipped (last 8 positions, first, middle) and the base again among 100 filler blocks", ndEvals)
+	}
 	cmp.Count("linear complexity m=500,1000 (every complexity L=0..m via unit impulses, LFSR outputs of degree 1..64 and complements) and m=5000 (selected L)", lcEvals)
 	cmp.Sample(map[string]interface{}{"family": "linear complexity", "example": "m=500: block 0^499 1 (complexity 500, the lone final one)", "distinct_(m,L)_pairs_at_large_m": lcClasses.Len(), "oracle_selfcheck_blocks_BM_vs_bruteforce": bmChecked})
 
